@@ -1,11 +1,11 @@
 package checks
 
 import (
-	"sort"
-	"strings"
-	"os"
 	"encoding/json"
 	"fmt"
+	"os"
+	"sort"
+	"strings"
 
 	"verif/explore"
 )
